@@ -141,6 +141,7 @@ type Explorer struct {
 	mutexIDs    map[*value]int
 	lockLog     []string
 	cur         int
+	connOwner   int // thread holding the single pooled DB connection (-1: free)
 	joining     bool
 	mainDone    bool
 	lastHTTPStatus value
@@ -613,6 +614,7 @@ func (e *Explorer) resetPath(p []int) {
 	e.replaced = nil
 	e.inReplace = nil
 	e.SQLModel = false
+	e.connOwner = -1
 	e.JSONModel = false
 	e.sqlRows = nil
 	e.sqlCursors = nil
